@@ -151,8 +151,11 @@ func (e *Env) Ev(format string, a ...any) {
 	if e.frozen.Load() {
 		return
 	}
-	if e.FreeMode {
-		e.NEv++ // no event log in free mode: the run is not deterministic anyway
+	if e.FreeMode || (simrt.RaceBuild && !e.Keep) {
+		// no event log in free mode (the run is not deterministic anyway) nor in
+		// race builds (hashing in the standard library is instrumented and would
+		// be reported as a race of the harness with itself)
+		e.NEv++
 		return
 	}
 	s := fmt.Sprintf(format, a...)
